@@ -289,6 +289,10 @@ def np2dt(t):
     return res
 
         
+def _first_number(t):
+    """the leading day/month number of a string matching the ambiguity pattern, whatever the separator"""
+    return int(re.split('[-/ .]', t)[0])
+
 def uk2dt(t, tzinfo = None):
     if t in ('', 'null'):
         return None
@@ -300,7 +304,7 @@ def uk2dt(t, tzinfo = None):
     if ambiguity.search(t) is not None:
         if res.day<13:
             res = dt(res.year, res.day, res.month, res.hour, res.minute, res.second, res.microsecond)
-        elif int(t[:2].replace('-','').replace('/',''))!=res.day:
+        elif _first_number(t)!=res.day:
             raise ValueError('date %s is not in UK date format'%t)
     elif yyyymm.search(t) is not None or yyyymmm.search(t) is not None:
         res = datetime.datetime(res.year, res.month, 1)
@@ -315,7 +319,7 @@ def us2dt(t, tzinfo = None):
     elif t.lower() == 'now':
         return datetime.datetime.now()
     res = parser.parse(t)
-    if ambiguity.search(t) is not None and res.month != int(t[:2].replace('-','').replace('/','')):
+    if ambiguity.search(t) is not None and res.month != _first_number(t):
         raise ValueError('the date is not in US format')
     if yyyymm.search(t) is not None or yyyymmm.search(t) is not None:
         res = datetime.datetime(res.year, res.month, 1)
